@@ -1,13 +1,14 @@
 import Ogen.JsonCodec_proof
 /-! C03 end to end on the codec fragment: the generated server's verdict on a JSON body (decode, then `Validate()`)
     is validity against the schema, keywords included. -/
+set_option linter.constructorNameAsVariable false
 namespace JCodec
 open JEqG
 
 /-- the state a field ends in, told from the document: absent ↦ `omitted`, else what its member decodes to -/
 def fieldState (kvs : List (String × Json)) (f : Field) : Val :=
   match lookupJ kvs f.1 with
-  | none => .omitted
+  | none => initState f
   | some jv => (memberOf f.2.2.1 jv (decode f.2.2.2 jv)).getD .omitted
 
 theorem lookupJ_append_single (done : List (String × Json)) (k : String) (jv : Json) (n : String) :
@@ -114,7 +115,7 @@ theorem decode_obj_spec (closed : Bool) (fs : List Field) (kvs : List (String ×
   · rename_i st0 hst
     split at h
     · cases h
-      have hinit : (fs.map fun _ => Val.omitted) = fs.map (fieldState []) := by
+      have hinit : fs.map initState = fs.map (fieldState []) := by
         apply List.map_congr_left; intro f _; simp [fieldState, lookupJ]
       rw [hinit] at hst
       simpa using decodeMembers_spec closed fs hn kvs [] st (by simpa using hk) hst
@@ -131,6 +132,21 @@ theorem decodeItems_length (nul : Bool) (t : Ty) : ∀ (xs : List Json) (vs : Li
       cases h
       simp [decodeItems_length nul t xs vs' hvs]
     · cases h
+
+/-- **an absent member that has a schema default arrives as that default** (and a present one as what it decodes
+    to): the states of a decoded object, field by field -/
+theorem decoded_fields (closed : Bool) (fs : List Field) (kvs : List (String × Json)) (st : List Val)
+    (hn : (names fs).Nodup) (hk : (keys kvs).Nodup) (h : decode (.obj closed fs) (.obj kvs) = some (.obj st)) :
+    st = fs.map (fieldState kvs) := decode_obj_spec closed fs kvs st hn hk h
+theorem fieldState_absent_default (kvs : List (String × Json)) (n : String) (d : Val) (nul : Bool) (t : Ty)
+    (h : lookupJ kvs n = none) : fieldState kvs (n, .dflt d, nul, t) = d := by
+  simp [fieldState, h, initState, Pres.init]
+theorem fieldState_absent_optional (kvs : List (String × Json)) (n : String) (nul : Bool) (t : Ty)
+    (h : lookupJ kvs n = none) : fieldState kvs (n, .opt, nul, t) = .omitted := by
+  simp [fieldState, h, initState, Pres.init]
+theorem fieldState_present (kvs : List (String × Json)) (n : String) (p : Pres) (nul : Bool) (t : Ty) (jv : Json) (v : Val)
+    (h : lookupJ kvs n = some jv) (hv : memberOf nul jv (decode t jv) = some v) : fieldState kvs (n, p, nul, t) = v := by
+  simp [fieldState, h, hv]
 
 theorem validate_omitted (t : Ty) : validate t .omitted = true := by cases t <;> simp [validate]
 theorem validate_null (t : Ty) : validate t .null = true := by cases t <;> simp [validate]
@@ -150,7 +166,14 @@ theorem validate_obj (closed : Bool) (fs : List Field) (kvs : List (String × Js
     apply and_congr_left'
     unfold fieldState
     cases hl : lookupJ kvs n with
-    | none => simp [validate_omitted]
+    | none =>
+      simp only [iff_true]
+      cases hr : req with
+      | req => simp [initState, Pres.init, validate_omitted]
+      | opt => simp [initState, Pres.init, validate_omitted]
+      | dflt d =>
+        have := (wfs_mem_dflt fs _ d hw hmem (by simpa using hr)).2
+        simpa [initState, Pres.init] using this
     | some jv =>
       simp only
       have hm := lookupJ_mem hl
@@ -206,7 +229,7 @@ theorem validate_iff : ∀ (j : Json) (t : Ty) (v : Val), t.WF → UniqueKeys j 
     | obj closed fs =>
       simp only [Ty.WF] at hw
       simp only [UniqueKeys] at hu
-      have hwt := decode_wt _ _ _ h
+      have hwt := decode_wt _ _ _ (by simpa [Ty.WF] using hw) h
       cases v with
       | obj st =>
         have hst := decode_obj_spec closed fs kvs st hw.1 (by simpa [keys] using hu.1) h
@@ -266,8 +289,8 @@ theorem accept_iff_schemaValid (t : Ty) (j : Json) (hw : t.WF) (hu : UniqueKeys 
     exact validate_iff j t v hw hu hd
 
 /-! non-vacuity -/
-def exK : Ty := .obj false [("n", true, false, .int { min := some 0, max := some 10, exMax := true, mult := some 2 }),
-  ("s", false, true, .str { min := 1, max := some 3 }), ("xs", false, false, .arr { max := some 2 } true (.int { min := some 1 }))]
+def exK : Ty := .obj false [("n", .req, false, .int { min := some 0, max := some 10, exMax := true, mult := some 2 }),
+  ("s", .opt, true, .str { min := 1, max := some 3 }), ("xs", .opt, false, .arr { max := some 2 } true (.int { min := some 1 }))]
 example : accept exK (.obj [("s", .str "日本"), ("n", .num 8), ("zz", .null), ("xs", .arr [.null, .num 1])]) = true := by rfl
 example : accept exK (.obj [("n", .num 10)]) = false := by rfl          -- exclusive maximum
 example : accept exK (.obj [("n", .num 3)]) = false := by rfl           -- multipleOf
@@ -278,7 +301,7 @@ end JCodec
 #print axioms JCodec.accept_iff_schemaValid
 namespace JCodec
 /-! closed objects, the integer range and fraction literals -/
-def exC : Ty := .obj true [("n", true, false, .int {})]
+def exC : Ty := .obj true [("n", .req, false, .int {})]
 example : accept exC (.obj [("n", .num 1)]) = true := by rfl
 example : accept exC (.obj [("n", .num 1), ("zz", .null)]) = false := by rfl                  -- undeclared member, closed
 example : accept exC (.obj [("n", .num .frac)]) = false := by rfl                              -- 1.0 is no integer literal
